@@ -56,8 +56,9 @@ def make_case(rng, tier, prog0=None):
     D, P = rng.randint(1, 3), rng.randint(1, 2)
     rec = [mk_input(rng, s, rec_kind, D, P) for s in prog['inputs']]
     replays = []
-    for _ in range(rng.randint(1, 3 if tier == 'quick' else 6)):
-        k = rng.choice(['nd', 'ut', 'ut'])
+    kinds_forced = ['nd', 'ut'] if prog0 is not None else []      # the fixed single-operation programs: replays of both kinds
+    for _ in range(max(len(kinds_forced), rng.randint(1, 3 if tier == 'quick' else 6))):
+        k = kinds_forced.pop() if kinds_forced else rng.choice(['nd', 'ut', 'ut'])
         D2, P2 = rng.randint(1, 4), rng.randint(1, 3)
         replays.append({'kind': k, 'D': D2, 'P': P2, 'xs': [mk_input(rng, s, k, D2, P2) for s in prog['inputs']]})
     return {'prog': prog, 'rec_kind': rec_kind, 'D': D, 'P': P, 'rec': rec, 'replays': replays,
